@@ -2,30 +2,623 @@
 
 package bfe_server
 
+// C26 — hop-by-hop header fields are not forwarded to the backend.
+//
+// Engine E4 (bounded-exhaustive input enumeration) on top of the E2 HTTP/1 environment: every
+// request of the stated finite families is sent through the real conn.serve -> ReverseProxy.
+// ServeHTTP -> hopByHopHeaderRemove -> (scripted RoundTripper) Request.Write, and the exact bytes
+// the backend would receive are parsed strictly and judged against a reference model written
+// from the property statement only:
+//
+//   - no Connection, Keep-Alive, Proxy-Authenticate, Proxy-Authorization, Upgrade field line;
+//   - a TE field line only with the value 'trailers';
+//   - no Trailer / Transfer-Encoding line taken from the client (bfe's own framing of the body it
+//     sends on the next hop - exactly `Transfer-Encoding: chunked` in front of a well-formed
+//     chunked body, and a Trailer announcement for that chunked body - is not the client's field
+//     and is not judged);
+//   - no field whose name is listed in any of the client's Connection field lines.
+//
+// Nothing else is demanded (in particular not that other fields ARE forwarded).
+
 import (
 	"fmt"
 	"os"
+	"path/filepath"
+	"strconv"
+	"strings"
 	"testing"
+	"testing/synctest"
 
 	"github.com/bfenetworks/bfe/verifkit/vk"
 )
+
+// ---- request model ---------------------------------------------------------------------------------
+
+type c26hdr struct{ name, val string }
+
+type c26req struct {
+	method string
+	proto  string // "1.1" or "1.0"
+	hdrs   []c26hdr
+	body   string // raw bytes following the header block
+}
+
+func (q c26req) bytes() string {
+	var sb strings.Builder
+	fmt.Fprintf(&sb, "%s /p?x=1 HTTP/%s\r\nHost: example.org\r\n", q.method, q.proto)
+	for _, h := range q.hdrs {
+		sb.WriteString(h.name)
+		sb.WriteString(":")
+		if h.val != "" {
+			sb.WriteString(" ")
+			sb.WriteString(h.val)
+		}
+		sb.WriteString("\r\n")
+	}
+	sb.WriteString("\r\n")
+	sb.WriteString(q.body)
+	return sb.String()
+}
+
+// values of field name (case-insensitive) in order of appearance.
+func (q c26req) values(name string) []string {
+	var out []string
+	for _, h := range q.hdrs {
+		if strings.EqualFold(h.name, name) {
+			out = append(out, h.val)
+		}
+	}
+	return out
+}
+
+func (q c26req) has(name string) bool { return len(q.values(name)) > 0 }
+
+// nominated returns the lower-cased field names listed in the client's Connection field lines.
+func (q c26req) nominated() map[string]bool {
+	out := map[string]bool{}
+	for _, v := range q.values("Connection") {
+		for _, tok := range strings.Split(v, ",") {
+			tok = strings.ToLower(strings.Trim(tok, " \t"))
+			if tok != "" {
+				out[tok] = true
+			}
+		}
+	}
+	return out
+}
+
+// isUpgrade mirrors the statement's "(non-upgrade)" carve-out the way bfe defines an upgrade
+// request (bfe_websocket.CheckUpgradeWebSocket, first request of a connection only). The
+// enumeration never produces such a request; this is a guard.
+func (q c26req) isUpgrade(first bool) bool {
+	if !first || q.method != "GET" {
+		return false
+	}
+	up := q.values("Upgrade")
+	co := q.values("Connection")
+	return len(up) > 0 && strings.EqualFold(up[0], "websocket") && len(co) > 0 && strings.Contains(strings.ToLower(co[0]), "upgrade")
+}
+
+// ---- strict parse of what the backend receives -------------------------------------------------------
+
+type c26out struct {
+	line string
+	hdrs []c26hdr
+	body string
+	bad  string
+}
+
+func c26parse(raw []byte) c26out {
+	s := string(raw)
+	var o c26out
+	i := strings.Index(s, "\r\n\r\n")
+	if i < 0 {
+		o.bad = "no end of header block"
+		return o
+	}
+	lines := strings.Split(s[:i], "\r\n")
+	o.line = lines[0]
+	o.body = s[i+4:]
+	for _, l := range lines[1:] {
+		k := strings.IndexByte(l, ':')
+		if k <= 0 {
+			o.bad = "malformed header line " + strconv.Quote(l)
+			return o
+		}
+		o.hdrs = append(o.hdrs, c26hdr{l[:k], strings.Trim(l[k+1:], " \t")})
+	}
+	return o
+}
+
+// c26chunked reports whether body is exactly one well-formed chunked message (optional trailers).
+func c26chunked(body string) bool {
+	for {
+		i := strings.Index(body, "\r\n")
+		if i <= 0 {
+			return false
+		}
+		n, err := strconv.ParseUint(body[:i], 16, 31)
+		if err != nil {
+			return false
+		}
+		body = body[i+2:]
+		if n == 0 {
+			break
+		}
+		if uint64(len(body)) < n+2 || body[n:n+2] != "\r\n" {
+			return false
+		}
+		body = body[n+2:]
+	}
+	// trailer section: field lines, then an empty line
+	for {
+		i := strings.Index(body, "\r\n")
+		if i < 0 {
+			return false
+		}
+		if i == 0 {
+			return body == "\r\n"
+		}
+		if strings.IndexByte(body[:i], ':') <= 0 {
+			return false
+		}
+		body = body[i+2:]
+	}
+}
+
+// ---- oracle ------------------------------------------------------------------------------------------
+
+var c26hopList = map[string]bool{"connection": true, "keep-alive": true, "proxy-authenticate": true, "proxy-authorization": true, "upgrade": true}
+var c26listed = map[string]bool{"connection": true, "keep-alive": true, "proxy-authenticate": true, "proxy-authorization": true, "upgrade": true,
+	"te": true, "trailer": true, "transfer-encoding": true}
+
+type c26vio struct{ sig, detail string }
+
+// presentation class of a listed field in the client's request.
+func c26class(vals []string) string {
+	switch {
+	case len(vals) == 0:
+		return "not-sent-by-client"
+	case vals[0] == "":
+		return "empty-first-value"
+	}
+	return "nonempty-first-value"
+}
+
+func c26clientChunked(q c26req) bool {
+	v := q.values("Transfer-Encoding")
+	if len(v) == 0 {
+		return false
+	}
+	toks := strings.Split(v[0], ",")
+	return strings.EqualFold(strings.TrimSpace(toks[len(toks)-1]), "chunked")
+}
+
+// c26judge applies the statement to one backend-bound request. notes = non-judged observations.
+func c26judge(q c26req, raw []byte) (vios []c26vio, notes []string) {
+	o := c26parse(raw)
+	if o.bad != "" {
+		// not a clause of C26 (C25 judges well-formedness); cannot judge
+		return nil, []string{"unparsable-backend-request"}
+	}
+	nom := q.nominated()
+	teLines := 0
+	for _, h := range o.hdrs {
+		if strings.EqualFold(h.name, "Transfer-Encoding") {
+			teLines++
+		}
+	}
+	for _, h := range o.hdrs {
+		ln := strings.ToLower(h.name)
+		switch {
+		case c26hopList[ln]:
+			vios = append(vios, c26vio{"hoplist:" + c26class(q.values(ln)) + ":forwarded",
+				fmt.Sprintf("field line %q reached the backend", h.name+": "+h.val)})
+		case ln == "te":
+			if strings.ToLower(h.val) == "trailers" {
+				notes = append(notes, "te-trailers-kept")
+				continue
+			}
+			vals := q.values("TE")
+			cl := c26class(vals)
+			if len(vals) > 1 && strings.ToLower(vals[0]) == "trailers" {
+				cl = "trailers-first-then-other"
+			}
+			vios = append(vios, c26vio{"te:" + cl + ":forwarded",
+				fmt.Sprintf("field line %q (TE other than 'trailers') reached the backend", h.name+": "+h.val)})
+		case ln == "transfer-encoding":
+			if h.val == "chunked" && teLines == 1 && c26clientChunked(q) && c26chunked(o.body) {
+				notes = append(notes, "own-chunked-framing")
+				continue
+			}
+			vios = append(vios, c26vio{"framing:transfer-encoding:" + c26class(q.values(ln)) + ":forwarded",
+				fmt.Sprintf("field line %q reached the backend and is not bfe's own chunked framing (body %q)", h.name+": "+h.val, o.body)})
+		case ln == "trailer":
+			// bfe's own announcement for the chunked body it sends: only names the client declared
+			own := teLines == 1 && c26chunked(o.body)
+			decl := map[string]bool{}
+			for _, v := range q.values("Trailer") {
+				for _, t := range strings.Split(v, ",") {
+					decl[strings.ToLower(strings.TrimSpace(t))] = true
+				}
+			}
+			for _, t := range strings.Split(h.val, ",") {
+				if !decl[strings.ToLower(strings.TrimSpace(t))] {
+					own = false
+				}
+			}
+			if own {
+				notes = append(notes, "own-trailer-announcement")
+				continue
+			}
+			vios = append(vios, c26vio{"framing:trailer:" + c26class(q.values(ln)) + ":forwarded",
+				fmt.Sprintf("field line %q reached the backend", h.name+": "+h.val)})
+		case nom[ln] && !c26listed[ln] && ln != "host" && ln != "content-length":
+			co := q.values("Connection")
+			vios = append(vios, c26vio{"connection-nominated:forwarded",
+				fmt.Sprintf("client sent Connection %q; nominated field line %q reached the backend", co, h.name+": "+h.val)})
+		}
+	}
+	return
+}
+
+// ---- execution ---------------------------------------------------------------------------------------
+
+// c26releaseWaitGroup must run inside the bubble while conn.serve is still running. conn.serve
+// does srv.connWaitGroup.Add(1) inside the bubble, which ties the server's WaitGroup to that
+// bubble; go1.26 only unties it when the counter returns to zero while somebody waits. Without a
+// waiter the next execution (a new bubble, same server) dies with "WaitGroup.Add called from
+// multiple synctest bubbles".
+func c26releaseWaitGroup(srv *BfeServer) {
+	go srv.connWaitGroup.Wait()
+	synctest.Wait()
+}
+
+type c26ctx struct {
+	r      *vk.Run
+	t      *testing.T
+	srv    *BfeServer // one backend, no retry
+	srvRt  *BfeServer // two backends, RetryMax 1 (first attempt fails to connect)
+	idx    int
+	judged int64
+}
+
+// mode: "first" = the request is the first on its connection; "second" = it follows a plain GET on
+// the same keep-alive connection; "retry" = first attempt gets a connect error, the retried
+// attempt is inspected.
+func (c *c26ctx) run(family, id string, q c26req, mode string) {
+	c.idx++
+	if !c.r.Mine(c.idx) {
+		return
+	}
+	caseID := vk.Key(family, mode, id)
+	if !c.r.Case(caseID) {
+		return
+	}
+	if q.isUpgrade(mode != "second") {
+		c.r.Outcome("skipped-upgrade-request")
+		return
+	}
+	srv := c.srv
+	var answers []h1answer
+	if mode == "retry" {
+		srv = c.srvRt
+		answers = []h1answer{{ErrKind: "connect"}}
+	}
+	var atts []h1attempt
+	var clientOut []byte
+	panicked, pv := vk.Guard(func() {
+		h1run(c.t, srv, answers, func(e *h1env) {
+			c26releaseWaitGroup(srv)
+			skip := 0
+			if mode == "second" {
+				e.send("GET /first HTTP/1.1\r\nHost: example.org\r\n\r\n")
+				e.newOut()
+				skip = len(e.Attempts())
+			}
+			e.send(q.bytes())
+			clientOut = e.newOut()
+			atts = e.Attempts()[skip:]
+		})
+	})
+	if panicked {
+		c.r.Outcome("panic")
+		c.r.Violation("harness-or-bfe-panic:"+vk.PanicSite(pv), caseID, pv)
+		return
+	}
+	proxied := 0
+	bad := false
+	interesting := false
+	for _, a := range atts {
+		if a.Raw == nil {
+			continue // connect error: nothing was written
+		}
+		proxied++
+		vios, notes := c26judge(q, a.Raw)
+		c.judged++
+		for _, n := range notes {
+			c.r.Outcome(n)
+		}
+		for _, v := range vios {
+			bad = true
+			c.r.Outcome("VIOLATION " + v.sig)
+			c.r.Violation(v.sig, caseID, fmt.Sprintf("client request %q; backend received %q; %s", q.bytes(), a.Raw, v.detail))
+		}
+	}
+	for n := range c26listed {
+		if q.has(n) {
+			interesting = true
+		}
+	}
+	switch {
+	case proxied == 0:
+		st := "none"
+		if len(clientOut) >= 12 {
+			st = string(clientOut[9:12])
+		}
+		c.r.Outcome("not-proxied:client-got-" + st)
+	case bad:
+		c.r.Outcome("proxied:forbidden-field-reached-backend")
+	default:
+		c.r.Outcome("proxied:clean")
+	}
+	if proxied > 0 && interesting {
+		c.r.Nontrivial(caseID)
+	}
+	if proxied > 0 {
+		c.r.Sample(map[string]string{"case": caseID, "client": q.bytes(), "backend": string(atts[len(atts)-1].Raw)})
+	}
+}
+
+// ---- alphabets ---------------------------------------------------------------------------------------
+
+// body for a request given whether it declares chunked and a trailer.
+func c26body(q *c26req, wantBody bool) {
+	switch {
+	case c26clientChunked(*q):
+		q.body = "3\r\nabc\r\n0\r\n"
+		if v := q.values("Trailer"); len(v) > 0 && v[0] != "" {
+			q.body += "X-T: tv\r\n"
+		}
+		q.body += "\r\n"
+	case wantBody:
+		q.hdrs = append(q.hdrs, c26hdr{"Content-Length", "3"})
+		q.body = "abc"
+	}
+}
+
+func c26spell(name string, k int) string {
+	switch k {
+	case 1:
+		return strings.ToLower(name)
+	case 2:
+		return strings.ToUpper(name)
+	}
+	return name
+}
 
 func TestVerifC26(t *testing.T) {
 	r := vk.Start(t, "C26")
 	defer r.Finish()
 	dir := os.Getenv("VERIF_SCRATCH")
-	srv := h1newServer(dir, h1defaultSpec())
-	h1run(t, srv, nil, func(e *h1env) {
-		e.send("GET /a?x=1 HTTP/1.1\r\nHost: example.org\r\nConnection: X-Foo, keep-alive\r\nX-Foo: bar\r\nTe: trailers\r\nKeep-Alive: 5\r\n\r\n")
-		fmt.Printf("client got: %q\n", e.newOut())
-		for _, a := range e.Attempts() {
-			fmt.Printf("attempt %s %s err=%q raw=%q\n", a.Cluster, a.Backend, a.Err, a.Raw)
+	if dir == "" {
+		dir = t.TempDir()
+	}
+	c := &c26ctx{r: r, t: t}
+	c.srv = h1newServer(filepath.Join(dir, "one"), h1defaultSpec())
+	c.srvRt = h1newServer(filepath.Join(dir, "retry"), h1spec{Host: "example.org", Clusters: []h1cluster{{
+		Name: "c1",
+		Sub: map[string][]h1backend{"s1": {{Name: "b1", Addr: "10.0.0.1", Port: 80, Weight: 1},
+			{Name: "b2", Addr: "10.0.0.2", Port: 80, Weight: 1}}},
+		SubWeight: map[string]int{"s1": 100},
+		RetryMax:  1,
+	}}})
+	thorough := r.Thorough()
+
+	// ---- family S: every subset of the eight listed fields, with value states ----
+	type st struct {
+		name string
+		vals []string // "\x00" = absent
+	}
+	const absent = "\x00"
+	fields := []st{
+		{"Keep-Alive", []string{absent, "timeout=5", ""}},
+		{"Proxy-Authenticate", []string{absent, "Basic realm=x", ""}},
+		{"Proxy-Authorization", []string{absent, "Basic QQ==", ""}},
+		{"TE", []string{absent, "gzip", "", "trailers"}},
+		{"Trailer", []string{absent, "X-T", ""}},
+		{"Transfer-Encoding", []string{absent, "chunked", ""}},
+		{"Upgrade", []string{absent, "h2c", ""}},
+		{"Connection", []string{absent, "close", "keep-alive", "", "X-Foo", "X-Foo, close"}},
+	}
+	type shape struct{ method, proto, mode string }
+	shapes := []shape{{"GET", "1.1", "first"}, {"POST", "1.1", "first"}}
+	if thorough {
+		shapes = append(shapes, shape{"GET", "1.0", "first"}, shape{"POST", "1.0", "first"},
+			shape{"GET", "1.1", "second"}, shape{"POST", "1.1", "retry"})
+	}
+	sel := make([]int, len(fields))
+	var recS func(i int)
+	recS = func(i int) {
+		if i == len(fields) {
+			for _, sh := range shapes {
+				if r.Expired("family S") {
+					return
+				}
+				q := c26req{method: sh.method, proto: sh.proto, hdrs: []c26hdr{{"X-Keep", "1"}}}
+				for j, f := range fields {
+					if v := f.vals[sel[j]]; v != absent {
+						q.hdrs = append(q.hdrs, c26hdr{f.name, v})
+					}
+				}
+				q.hdrs = append(q.hdrs, c26hdr{"X-Foo", "bar"})
+				c26body(&q, sh.method == "POST")
+				c.run("S", vk.Key(sh.method, sh.proto, vk.IntsString(sel)), q, sh.mode)
+			}
+			return
 		}
-		fmt.Println("connNums", e.connNums(), "closed", e.closed())
-		e.send("POST /b HTTP/1.1\r\nHost: example.org\r\nContent-Length: 3\r\n\r\nabc")
-		fmt.Printf("client got: %q\n", e.newOut())
-		as := e.Attempts()
-		fmt.Printf("attempt raw=%q\n", as[len(as)-1].Raw)
-	})
-	r.Case("smoke")
+		for k := range fields[i].vals {
+			sel[i] = k
+			recS(i + 1)
+		}
+	}
+	recS(0)
+
+	// ---- family D: one listed field, repeated lines / spellings / positions ----
+	dvals := map[string][]string{
+		"Connection":          {"close", "", "keep-alive", "X-Foo"},
+		"Keep-Alive":          {"timeout=5", "", "max=1"},
+		"Proxy-Authenticate":  {"Basic realm=x", "", "Digest y"},
+		"Proxy-Authorization": {"Basic QQ==", "", "Bearer z"},
+		"TE":                  {"gzip", "", "trailers", "Trailers", "trailers, gzip", "gzip;q=0.5, trailers"},
+		"Trailer":             {"X-T", "", "X-U"},
+		"Transfer-Encoding":   {"chunked", "", "Chunked", "identity", "gzip, chunked"},
+		"Upgrade":             {"h2c", "", "websocket"},
+	}
+	dnames := []string{"Connection", "Keep-Alive", "Proxy-Authenticate", "Proxy-Authorization", "TE", "Trailer", "Transfer-Encoding", "Upgrade"}
+	maxRep := r.Pick(2, 3)
+	dshapes := []shape{{"GET", "1.1", "first"}, {"POST", "1.1", "first"}, {"GET", "1.0", "first"}}
+	if thorough {
+		dshapes = append(dshapes, shape{"GET", "1.1", "second"}, shape{"POST", "1.0", "first"}, shape{"POST", "1.1", "retry"})
+	}
+	for _, name := range dnames {
+		vals := dvals[name]
+		for n := 1; n <= maxRep; n++ {
+			seq := make([]int, n)
+			var recD func(i int)
+			recD = func(i int) {
+				if i < n {
+					for k := range vals {
+						seq[i] = k
+						recD(i + 1)
+					}
+					return
+				}
+				for spell := 0; spell < 3; spell++ {
+					for pos := 0; pos < 3; pos++ { // 0: all lines before X-Keep, 1: after, 2: split around it
+						if pos == 2 && n == 1 {
+							continue
+						}
+						for _, ctxConn := range []string{absent, "keep-alive"} {
+							if ctxConn != absent && name == "Connection" {
+								continue
+							}
+							for _, sh := range dshapes {
+								if r.Expired("family D") {
+									return
+								}
+								q := c26req{method: sh.method, proto: sh.proto}
+								var own []c26hdr
+								for j, k := range seq {
+									sp := spell
+									if j > 0 && spell == 2 {
+										sp = 0 // mixed spellings of the repeated lines
+									}
+									own = append(own, c26hdr{c26spell(name, sp), vals[k]})
+								}
+								switch pos {
+								case 0:
+									q.hdrs = append(append(q.hdrs, own...), c26hdr{"X-Keep", "1"})
+								case 1:
+									q.hdrs = append(append(q.hdrs, c26hdr{"X-Keep", "1"}), own...)
+								default:
+									q.hdrs = append(append(append(q.hdrs, own[0]), c26hdr{"X-Keep", "1"}), own[1:]...)
+								}
+								if ctxConn != absent {
+									q.hdrs = append(q.hdrs, c26hdr{"Connection", ctxConn})
+								}
+								q.hdrs = append(q.hdrs, c26hdr{"X-Foo", "bar"})
+								c26body(&q, sh.method == "POST")
+								c.run("D", vk.Key(name, vk.IntsString(seq), spell, pos, vk.Q(ctxConn), sh.method, sh.proto), q, sh.mode)
+							}
+						}
+					}
+				}
+			}
+			recD(0)
+		}
+	}
+
+	// ---- family N: fields nominated by Connection ----
+	// ordered token lists without repetition, every split of the list over several Connection
+	// lines, separators, nominated fields present with a value / empty / repeated.
+	toks := []string{"X-Foo", "x-bar", "X-BAZ", "close", "keep-alive", "TE", "Keep-Alive"}
+	maxTok := r.Pick(3, 4)
+	seps := []string{", ", ",", " , "}
+	nshapes := []shape{{"GET", "1.1", "first"}, {"GET", "1.0", "first"}, {"POST", "1.1", "first"}}
+	if thorough {
+		nshapes = append(nshapes, shape{"GET", "1.1", "second"}, shape{"POST", "1.1", "retry"})
+	}
+	present := [][]c26hdr{
+		{{"X-Foo", "bar"}, {"X-Bar", "1"}, {"X-Baz", ""}, {"TE", "trailers"}, {"Keep-Alive", "timeout=5"}},
+		{{"x-foo", "bar"}, {"X-Foo", "again"}, {"X-BAR", ""}, {"X-Baz", "z"}, {"TE", "gzip"}},
+	}
+	var list []int
+	used := make([]bool, len(toks))
+	var recN func()
+	emitN := func() {
+		k := len(list)
+		for split := 0; split < 1<<(k-1); split++ { // bit j set: new Connection line after token j
+			for si, sep := range seps {
+				if si > 0 && (k == 1 || !thorough && split != 0) {
+					continue
+				}
+				var lines []string
+				cur := toks[list[0]]
+				for j := 1; j < k; j++ {
+					if split&(1<<(j-1)) != 0 {
+						lines = append(lines, cur)
+						cur = toks[list[j]]
+					} else {
+						cur += sep + toks[list[j]]
+					}
+				}
+				lines = append(lines, cur)
+				for pi, pres := range present {
+					for order := 0; order < 2; order++ { // Connection lines before / after the nominated fields
+						for _, sh := range nshapes {
+							if r.Expired("family N") {
+								return
+							}
+							q := c26req{method: sh.method, proto: sh.proto, hdrs: []c26hdr{{"X-Keep", "1"}}}
+							var co []c26hdr
+							for _, l := range lines {
+								co = append(co, c26hdr{"Connection", l})
+							}
+							if order == 0 {
+								q.hdrs = append(append(q.hdrs, co...), pres...)
+							} else {
+								q.hdrs = append(append(q.hdrs, pres...), co...)
+							}
+							c26body(&q, sh.method == "POST")
+							c.run("N", vk.Key(vk.IntsString(list), split, si, pi, order, sh.method, sh.proto), q, sh.mode)
+						}
+					}
+				}
+			}
+		}
+	}
+	recN = func() {
+		if len(list) > 0 {
+			emitN()
+		}
+		if len(list) == maxTok {
+			return
+		}
+		for i := range toks {
+			if used[i] {
+				continue
+			}
+			used[i] = true
+			list = append(list, i)
+			recN()
+			list = list[:len(list)-1]
+			used[i] = false
+		}
+	}
+	recN()
+
+	r.Set("bounds", fmt.Sprintf("S: all %d value-state vectors of the 8 listed fields x %d request shapes; D: 8 fields x value sequences up to %d lines x 3 spellings x 3 positions; N: ordered lists of up to %d of %d Connection tokens x all line splits x separators x 2 header sets x 2 orders x %d shapes",
+		3*3*3*4*3*3*3*6, len(shapes), maxRep, maxTok, len(toks), len(nshapes)))
+	r.Add("sum_backend_requests_judged", c.judged)
 }
